@@ -350,7 +350,7 @@ const maxDepth = 400
 
 func (m *Machine) callSSA(caller *frame, fn *ssa.Function, args []Value, env []Value) Value {
 	fi := m.info(fn)
-	if in := m.lookupIntrinsic(fn, fi); in != nil {
+	if in := m.lookupIntrinsic(fn, fi); in != nil && !m.intrinsicGatedOff(fi.name) {
 		m.stubsSeen[fi.name] = true
 		fr := &frame{m: m, caller: caller, fn: fn, info: fi}
 		return in(m, fr, args)
